@@ -244,6 +244,33 @@ def _block(stmts, fn_counts):
                 s.value = ref
             stmts[i:i + 1] = [init, loop] if direct else [init, loop, s]
             s = init
+        # 12. a search over a short constant display, `for X in (c1, .., cn): if T(X): S..; break` [else: E], is the decision chain
+        #     `if T(c1): X = c1; S.. elif T(c2): X = c2; S.. .. else: X = cn; E` (X keeps the last value when nothing matched)
+        if isinstance(s, ast.For) and isinstance(s.target, ast.Name) and isinstance(s.iter, (ast.Tuple, ast.List)) and 1 <= len(s.iter.elts) <= 8 \
+                and all(isinstance(c, ast.Constant) for c in s.iter.elts) and len(s.body) == 1 and isinstance(s.body[0], ast.If) and not s.body[0].orelse \
+                and s.body[0].body and isinstance(s.body[0].body[-1], ast.Break) \
+                and not any(isinstance(y, (ast.Break, ast.Continue, ast.FunctionDef, ast.AsyncFunctionDef, ast.Lambda, ast.ClassDef, ast.Await, ast.Yield, ast.YieldFrom, ast.NamedExpr))
+                            for b in [s.body[0].test] + s.body[0].body[:-1] for y in ast.walk(b)) \
+                and not any(isinstance(y, ast.Name) and y.id == s.target.id and isinstance(y.ctx, (ast.Store, ast.Del)) for b in s.body for y in ast.walk(b)):
+            import copy
+            X = s.target.id
+            iff = s.body[0]
+            consts = s.iter.elts
+            tail = list(s.orelse)
+            if not (tail and isinstance(tail[0], ast.Assign) and len(tail[0].targets) == 1 and isinstance(tail[0].targets[0], ast.Name) and tail[0].targets[0].id == X):
+                tail = [ast.Assign(targets=[ast.Name(id=X, ctx=ast.Store())], value=copy.deepcopy(consts[-1]))] + tail
+            chain = tail
+            for c in reversed(consts):
+                sub = _RenameLoads({X: c})
+                body = [ast.Assign(targets=[ast.Name(id=X, ctx=ast.Store())], value=copy.deepcopy(c))] + [sub.visit(copy.deepcopy(b)) for b in iff.body[:-1]]
+                chain = [ast.If(test=sub.visit(copy.deepcopy(iff.test)), body=body, orelse=chain)]
+            for top in chain:
+                for y in ast.walk(top):
+                    if not hasattr(y, 'lineno'):
+                        ast.copy_location(y, s)
+                ast.fix_missing_locations(top)
+            stmts[i:i + 1] = chain
+            continue
         # 6d. `x = next((E for T in I if C), D)` is `x = D; for T in I: if C: x = E; break`; and when the search result is only used by an
         #     immediately following `if x is not None: BODY` (D is None, E is the loop variable, C dereferences it - so a found element is
         #     not None), the whole is the search loop with the body inside: `for T in I: if C: BODY[x := T]; break`
